@@ -4,7 +4,7 @@ import Sonic.Proofs.ParseInv
 # Progress of the reference reader `Spec.Json.parseValue / parseElems / parseMembers`
 
 Every accepted value, element list, member list ends after its start and inside the input.  (For number tokens the
-bounds come from the assumed agreement `NumberCorrectOn`, which includes `start < next ≤ len`.)
+bounds come from the contract `NumberOK`: `start < next ≤ len`.)
 -/
 namespace Sonic.Proofs.Parse
 open Sonic.Gen Sonic.Spec Sonic.Model.Parse
@@ -23,16 +23,24 @@ theorem specNumTest (c : Nat) : (c == 45 || decide (48 ≤ c) && decide (c ≤ 5
   unfold isNumStart
   rw [Bool.or_comm]
 
-theorem num_bounds {bs : List Nat} (hnum : NumberCorrectOn bs) {p c : Nat} {v : JNum} {next : Nat}
+theorem num_bounds {bs : List Nat} (hnum : NumberOK bs) {p c : Nat} {v : JNum} {next : Nat}
     (hc : bs[p]? = some c) (hn : isNumStart c = true) (h : Number.scanNumber bs p = .ok v next) :
     p < next ∧ next ≤ bs.length := by
-  obtain ⟨r, hagr, _⟩ := hnum p c (lt_of_get_some hc) hc hn
-  rw [h] at hagr
-  cases r with
-  | ok v' n' => exact ⟨hagr.2.2.1, hagr.2.2.2⟩
-  | err _ _ => exact hagr.elim
+  obtain ⟨r, hcase, _⟩ := hnum p c (lt_of_get_some hc) hc hn
+  rcases hcase with hagr | ⟨t, ht, hpos, hd, _⟩
+  · rw [h] at hagr
+    cases r with
+    | ok v' n' => exact ⟨hagr.2.2.1, hagr.2.2.2⟩
+    | err _ _ => exact hagr.elim
+  · have := hd.lt
+    unfold Number.scanNumber at h
+    rw [ht] at h
+    simp only at h
+    split at h
+    · injection h with _ h2; omega
+    · cases h
 
-theorem spec_progress {bs : List Nat} (hnum : NumberCorrectOn bs) : ∀ (fuel p : Nat),
+theorem spec_progress {bs : List Nat} (hnum : NumberOK bs) : ∀ (fuel p : Nat),
     (∀ v next, Json.parseValue bs fuel p = .ok (v, next) → p < next ∧ next ≤ bs.length) ∧
     (∀ vs e, Json.parseElems bs fuel p = .ok (vs, e) → p + 1 < e ∧ e ≤ bs.length) ∧
     (∀ kvs e, Json.parseMembers bs fuel p = .ok (kvs, e) → p + 4 < e ∧ e ≤ bs.length) := by
